@@ -3,7 +3,7 @@
 set -e
 cd "$(dirname "$0")"
 export CARGO_TARGET_DIR="$PWD/.target" CARGO_NET_OFFLINE=true
-for c in harness/vh harness/zoo; do
+for c in harness/vh harness/zoo harness/vt; do
   (cd "$c" && cargo build --offline --quiet)
 done
 echo "setup ok"
